@@ -5,18 +5,82 @@ ROOT = os.path.dirname(os.path.dirname(os.path.abspath(__file__)))
 
 # id -> (technique, level text, level_note, design_ref, engines)
 CHECKS = {
+ "C01": ("property-based testing (proptest): generated (form, coefficients, argument) against an exact dyadic evaluation of sum c_i x^i and the property's own bound; exact-class subcases; dense deterministic x sweeps",
+         "No violation of |fl-P| <= 4(n+2)u*S (exact inequality) among generated cases over all 19 forms with cancellation patterns, signs, |x|<1 / >1, and of exact equality in the exact class; Log forms against a 384-bit ln. Exploration.",
+         "Trusted: ppv-exact (exact dyadic arithmetic, 384-bit ln; self-tested every run); platform ln within one ulp.",
+         "DESIGN.md §4 C01"),
  "C02": ("property-based testing (proptest) against a linear-scan selection model, bit-exact; exhaustive small scope; libFuzzer campaign in the thorough tier",
          "No violation among the generated (segment list, query) cases from a generator that makes on-end / one-ulp / duplicate-end / signed-zero / infinite configurations common, plus complete enumeration of all lists of <=4 ends over a 5-point lattice with their whole query alphabet. Exploration, not proof.",
          "Trusted: the 10-line selection model (cross-checked against a partition_point formulation in the self-test); calling the selected piece's evaluate directly to obtain the expected bits.",
          "DESIGN.md §4 C02"),
- "C03": ("model-based stateful property testing (proptest-generated query histories vs. stateless model), exhaustive short histories, breadth-first exploration of the evaluator's reachable hidden states via hook verif_state",
+ "C03": ("model-based stateful property testing (proptest-generated query histories vs. stateless model), exhaustive short histories, breadth-first exploration of the evaluator's reachable hidden states via hook verif_state; libFuzzer campaign in the thorough tier",
          "No violation among generated histories (backward jumps over several segments, landings on ends, last->first, repeats, +-inf) and, for each explored list and its alphabet, among ALL (reachable evaluator state, query) pairs - which covers histories of unbounded length over that alphabet for that list. Exploration over lists/alphabets.",
          "Trusted: selection model; hook verif_state exposes the complete hidden state (cursor offset, tail length, last argument bits).",
          "DESIGN.md §4 C03"),
- "C16": ("property-based testing with NaN/inf injected into query histories (same engine as C03, incl. state exploration with NaN in the alphabet) + generated 'operation soup' over the public API under catch_unwind with debug-assertions/overflow-checks on",
-         "No panic and no post-NaN disagreement among generated histories and all (reachable state, query) pairs incl. 5 NaN payloads; no panic in generated sequences of every public operation on well-formed finite input. Exploration.",
+ "C04": ("property-based testing (proptest): generated admissible knot sequences against the exact (384-bit, exact sign decisions) Kruger construction and its magnitude shadows",
+         "No violation of interpolation at both knots of every interval (exact evaluation of the returned cubic and through evaluate), of derivative continuity and of the prescribed knot slopes, within 64u*shadow, among generated knot sets incl. offsets up to 1e9, one-ulp steps, plateaus, near-collinear data. Exploration.",
+         "Trusted: ppv-exact; K=64 as the reading of 'a small multiple of 2^-53 times the magnitudes of the intermediate terms' (measured worst ratio reported in the evidence).",
+         "DESIGN.md §4 C04"),
+ "C05": ("property-based testing (proptest): same generator/reference as C04; coefficient agreement with the exact spline, no-overshoot/monotonicity decided analytically from the returned cubic's critical points (exact discriminant sign, exact evaluation), flatness at data extrema",
+         "No violation among generated knot sets, with at least one extremum/plateau knot in most cases (the branch no test executes); 'every real x of the interval' is decided from critical points, not by sampling. Exploration over knot sets.",
+         "Trusted: ppv-exact; K=64; root location uses an f64 sqrt only to choose where to evaluate exactly (a miss can only lose detection power, never raise an alarm).",
+         "DESIGN.md §4 C05"),
+ "C06": ("property-based testing (proptest): generated knot slices (out-of-order, repeated, gaps around machine epsilon, large offsets) against a running-maximum model and the exact straight-line interpolant",
+         "No violation of the structural clauses (count, ends = running maximum), of the narrow-segment/constant rule decided on the exact width, of interpolation at both forced knots, and of evaluate() vs the exact line at, between and outside knots. Exploration.",
+         "Trusted: ppv-exact; value clauses judged for magnitudes within 2^+-200.",
+         "DESIGN.md §4 C06"),
+ "C07": ("property-based testing (proptest): generated (degree, coefficients, knot, a, b) against exact c_i/(i+1) (one-ulp rule checked by exact cross-multiplication) and the 384-bit integral",
+         "No violation of: constant 0 and coefficients of indefinite(), vertical-shift-only integral(knot), passing through the knot (exact evaluation), F(b)-F(a) = exact integral, integral().derivative() = p within one ulp, Segment delegation; knots of any sign incl. 0. Exploration.",
+         "Trusted: ppv-exact.",
+         "DESIGN.md §4 C07"),
+ "C08": ("property-based testing (proptest): generated coefficient vectors over every finite class against exact (i+1)c (one-ulp rule, bit-exact for power-of-two factors) and structural equality for Segment/Piecewise",
+         "No violation among generated cases for degrees 0..8 and piecewise functions of 0..12 pieces (ends bit-identical, pieces bit-identical to differentiating the piece alone, value clause against exact p'(x)). Exploration.",
+         "Trusted: ppv-exact.",
+         "DESIGN.md §4 C08"),
+ "C09": ("property-based testing (proptest): differential against an independent closed form t*Q(ln t) (exact Q, 384-bit ln) through Evaluate::evaluate of the returned integral objects",
+         "No violation among generated (degree 0..8, coefficients, knot, a, b) with points other than 1 the norm: F(knot.x)=knot.y, F(b)-F(a) = integral, indefinite() likewise, within 160u*M (quartic: (1e-12+160u)*M). Found D1 (fixed in /repo). Exploration.",
+         "Trusted: ppv-exact; K=160 (derivation in DESIGN.md; measured worst ratio in the evidence). Inputs matching the open finding KF1 (quartic form at tiny points) are excluded and counted.",
+         "DESIGN.md §4 C09"),
+ "C10": ("property-based testing (proptest) with directed generators (every float within +-4096 ulps of v=1 and of both switch points, dense x sweeps, use-case range) against a 384-bit evaluation of the defining formula and the property's own 1e-12 bound; libFuzzer campaign in the thorough tier",
+         "No violation of |fl-E| <= 1e-12*sum|terms| and of exactness at v=1 among generated cases and complete ulp-neighbourhoods of the three special points, outside the recorded open finding KF1 (unscaled intermediate overflow for tiny v), which is reported as KNOWN-FINDING and whose inputs are excluded by a narrow input-only signature. Exploration.",
+         "Trusted: ppv-exact (series and closed form of x^5R cross-checked in the self-test).",
+         "DESIGN.md §4 C10, §5 KF1"),
+ "C11": ("property-based testing (proptest): generated piecewise functions over Poly0..7 and Log<Poly0..8> with knots inside/at/beyond the first piece, against per-piece exact integrals accumulated exactly",
+         "No violation of: breakpoints kept, first piece through k0, continuity at every interior breakpoint, every piece an antiderivative, F(t)=k0.y+integral through Piecewise::evaluate, indefinite() rules, iterator equality. Catches D1 as well (regression case kept). Exploration.",
+         "Trusted: ppv-exact; tolerance 160(j+1)u*W_j with cumulative magnitude W_j.",
+         "DESIGN.md §4 C11"),
+ "C12": ("property-based testing (proptest) against the selection model applied to the running maximum, bit-exact, with a counting iterator for laziness; exhaustive short sequences; libFuzzer campaign in the thorough tier",
+         "No violation among generated sorted / arbitrary-order sequences and all sequences of length 3 over the alphabets of the small-scope lists. Exploration.",
+         "Trusted: selection model.",
+         "DESIGN.md §4 C12"),
+ "C13": ("property-based testing (proptest): pairs of segment lists from one shared lattice; the merged result is judged at the whole union alphabet against the selection model applied to both operands (field-by-field, bit-exact); exhaustive small scope of pairs; libFuzzer campaign in the thorough tier",
+         "No violation of structure (non-empty, non-decreasing, ends from operands, length bound) and of 'the piece selected at x is op(piece of f at x, piece of g at x)' for both operators, plus a value clause against 384-bit f(x) op g(x). Exploration.",
+         "Trusted: selection model; ppv-exact for the value clause (KF1 inputs excluded there and counted).",
+         "DESIGN.md §4 C13"),
+ "C14": ("property-based testing (proptest): every operator impl x degree instance is part of the generated case; result numbers compared with the single correctly rounded f64 operation on the inputs",
+         "No violation among generated cases over the 125 (impl, degree) instances with pairwise distinct operands (an index slip changes the result), full exponent range, special scalars; value clause for plain polynomials against exact arithmetic. Exploration.",
+         "Trusted: IEEE f64 +,-,* of the host as the 'correctly rounded operation'; ppv-exact for the value clause.",
+         "DESIGN.md §4 C14"),
+ "C15": ("property-based testing (proptest): every (operator, piece family, degree) combination whose bounds are satisfiable; ends compared bit for bit, pieces with the operator applied to the piece alone",
+         "No violation among generated piecewise functions of 0..12 pieces: count, order, every end bit-identical, every piece equal to the piece-level operator (which C14 pins). Exploration.",
+         "Trusted: the piece-level operators as pinned by C14.",
+         "DESIGN.md §4 C15"),
+ "C16": ("property-based testing with NaN/inf injected into query histories (same engine as C03, incl. state exploration with NaN in the alphabet) + generated 'operation soup' over the public API under catch_unwind with debug-assertions/overflow-checks on; libFuzzer campaign in the thorough tier",
+         "No panic and no post-NaN disagreement among generated histories and all (reachable state, query) pairs incl. 5 NaN payloads; no panic in generated sequences of every public operation on well-formed finite input. Found D2 (fixed in /repo; regression cases kept). Exploration.",
          "Trusted: the hand-written enumeration of the public API (props/soup.rs); panics are observed via catch_unwind (panic=unwind build).",
          "DESIGN.md §4 C16"),
+ "C17": ("property-based testing (proptest): pairs (a, b) with b a perturbation of a around the tolerance, against the conjunction of the f64 relations over the flattened numbers; libFuzzer campaign in the thorough tier",
+         "No violation among generated pairs over all approx impls (PolyN, Poly0..8, Log, IntOfLog, IntOfLogPoly4, Segment, Piecewise), both relations, both argument orders, default-tolerance macros, reflexivity on finite values, == consistency. Exploration.",
+         "Trusted: the f64 impls of the approx crate; flattening by direct field access.",
+         "DESIGN.md §4 C17"),
+ "C18": ("property-based testing (proptest) round-trip over three wire formats (serde_json, serde_cbor, borsh) in two build configurations (default features; --features borsh); libFuzzer campaign in the thorough tier",
+         "No violation of decode(encode(v)) == v with bit-identical numbers among generated values of every serializable type with hard floats (subnormals, -0.0, extremes, f16/f32 boundary values), 0..16 segments, in both build configurations. Exploration.",
+         "Trusted: serde_json(float_roundtrip)/serde_cbor/borsh as representatives of 'serde'; NaN excluded as the property says.",
+         "DESIGN.md §4 C18"),
+ "C19": ("property-based testing (proptest) with byte strings constructed in Arbitrary's wire layout (chosen end lists, truncation at every position) plus random bytes; three-way evaluation against the selection model; libFuzzer campaign on raw bytes in the thorough tier",
+         "No panic, and every Ok value well-formed (>=1 segment, normal non-decreasing ends) and evaluated consistently by direct evaluation, the stateful evaluator and evaluate_v, among generated byte strings (about half decode to Ok). Exploration.",
+         "Trusted: selection model.",
+         "DESIGN.md §4 C19"),
 }
 
 NOT_YET = {}  # id -> reason, filled from properties.jsonl for everything not in CHECKS
@@ -58,7 +122,7 @@ def main():
         ],
         "checks": checks,
         "not_applicable": na,
-        "notes": "See DESIGN.md. known_findings.txt lists open / fixed findings; regress/<id>/*.json are saved cases replayed on every run.",
+        "notes": "See DESIGN.md. known_findings.txt lists open / fixed findings (fix commits in /repo: fc0f744 NaN evaluator state, fbf52de IntOfLog::evaluate factor v; open: KF1 quartic unscaled-intermediate overflow, reported as KNOWN-FINDING by C09/C10/C13). regress/<id>/*.json are saved cases replayed on every run; findings/*.json are witnesses of open findings. Exit 2 = infrastructure problem / inconclusive, never a violation.",
     }
     json.dump(m, open(os.path.join(ROOT, "MANIFEST.json"), "w"), indent=1)
     print(f"{len(checks)} checks, {len(na)} not claimed")
